@@ -18,6 +18,9 @@ def desc(mode, nlen, tlen, tiers, timeout=300):
         bound={1: "print_name() of a name of exactly %d symbolic bytes (full range except NUL, '/', newline) tokenised on its own" % nlen,
                2: "describe line of a symlink with concrete name and a target of exactly %d symbolic bytes (full range except NUL, newline)" % tlen,
                3: "describe line of a file with concrete name and an unpack root of exactly %d symbolic bytes" % tlen}[mode])
+OBLIGATIONS.append(dict(desc(2, 1, 2, ["quick", "thorough"]), name="describe_slink_target_with_newline_n1_t2", allow_unreached=True,
+    bound="describe line of a symlink with concrete name and a target of exactly 2 symbolic bytes, newline INCLUDED"))
+OBLIGATIONS[-1]["defines"] = dict(OBLIGATIONS[-1]["defines"], ALLOW_NL=1)
 OBLIGATIONS += [desc(1, 1, 1, ["quick", "thorough"]), desc(1, 2, 1, ["quick", "thorough"]), desc(2, 1, 2, ["quick", "thorough"]), desc(3, 1, 2, ["quick", "thorough"]),
                 desc(1, 3, 1, ["thorough"], 1200), desc(2, 1, 3, ["thorough"], 1200), desc(3, 1, 3, ["thorough"], 1200), desc(1, 4, 1, ["thorough"], 2400)]
 ASSUMPTIONS = ["stdout is captured by stub implementations of fputs/fputc/fwrite/printf (formats %s %u %o %c) - trusted, 40 lines",
